@@ -4,8 +4,7 @@ from harness import cxx_run as X
 
 class C02(ProgProp):
     id = 'C02'
-    theorems = ['C02.mts_provides_in_runs_in_dispatcher', 'C02.mts_requires_out_is_queued_by_value',
-                'C02.sts_passthrough', 'C02.accessor_type', 'C02.partition']
+    theorems = ['C02.mts_provides_in_runs_in_dispatcher', 'C02.mts_requires_out_is_queued_by_value', 'C02.by_reference_capture_dangles', 'C02.generated_post_captures_by_value', 'C02.sts_passthrough', 'C02.accessor_type', 'C02.partition']
     proof_modules = ['DznProofs.C02']
     level_rule = ('compiled programs over every way the configuration language assigns STS/MTS (presets, explicit '
                   'sets, remaining/all/none) and both facility origins; per stimulus: dispatcher flag, posted/shell '
